@@ -177,6 +177,12 @@ def uncompressed_kind(F, S):
 
 def check(F, run, tier):
     S = Summaries(F)
+    from ..rules_archive import verified_names_final
+    run.add(verified_names_final(F, S, F.fn(VOL + "::CreateArchive", nparams=2), VOL + "::CreateArchive"))
+    from ..rules_archive import handlers_rethrow
+    _oh, _nh = handlers_rethrow(F, S, ["/src/"])
+    run.add(_oh)
+    run.floor("exception-handlers", _nh, 7)
     run.declined = DECLINED
     run.explanation = (
         "Static analysis of VolFile::CreateArchive and the lookup / extraction path. Decided: R-ORDER (duplicate-name and "
